@@ -31,6 +31,8 @@ EXPLANATION = (
 def run(ctx, progs):
     ctx.explanation = EXPLANATION
     ctx.rule("PS1", "a store to `size` dominates every call of drop_range")
+    ctx.rule("SHRINK1", "a store that may shrink size is followed by drop_range on every path (no user code in between) or the function returns a Drain")
+    ctx.rule("INV1", "header stores (also those a guard's Drop performs while unwinding) have reviewed writers and value shapes")
     ctx.rule("PS2", "no Drop(L) reachable on the unwind edge of drop_in_place/ptr::read into local L")
     ctx.rule("DROPPER1", "every guard aggregate dominates every drop of a guard")
     ctx.rule("DESTROY1", "drop_range reaches a return without dropping its Droppers only over the `range.is_empty()` edge")
@@ -39,11 +41,75 @@ def run(ctx, progs):
     ctx.assumptions.append("INV1 (C04): stores to size/start have the reviewed shapes")
     for cfg, prog in progs.items():
         ps1(ctx, prog, cfg)
+        shrink1(ctx, prog, cfg)
+        from . import c04
+
+        c04.inv1(ctx, prog, cfg)
         ps2(ctx, prog, cfg)
         dropper1(ctx, prog, cfg)
         destroy1(ctx, prog, cfg)
         drn1_de(ctx, prog, cfg)
         dtor_table(ctx, prog, cfg)
+
+
+def shrink1(ctx, prog, cfg, rule="SHRINK1"):
+    """A store that may make `size` smaller takes the elements beyond the new size out of the buffer's custody. Whoever
+    does that hands them over at once: to the destroying primitive (drop_range, on every path to the return, before any
+    user code can run) or to a Drain (the function returns the Drain it builds). dec_size is the single-element form,
+    paired with its move-out by OCC. A store the facts entail to be >= the current size is not a shrink."""
+    n = 0
+    for f in prog.fns.values():
+        if not f.has_mir or f.short in ("CircularBuffer::dec_size", "CircularBuffer::inc_size", "<Drain<N, T> as Drop>::drop"):
+            continue
+        G = None
+        for (b, i, e) in common.field_stores(f, "size"):
+            e = mir.strip_casts(f.deep_simplify(e))
+            # current size at the store, through the same pointer
+            cur = None
+            for s_ in f.blocks[b]["stmts"][i:i + 1] if i < len(f.blocks[b]["stmts"]) else []:
+                if s_["k"] == "assign" and mir.place_has_deref(s_["place"]):
+                    cur = ("load", f.local_expr(s_["place"]["local"], b, i), ("size",), f.version_at(b, i, ("M", "size")))
+            if G is None:
+                G = guards.Guards(f)
+            from .. import subrule
+
+            if not subrule.transparent(f, e):
+                continue  # a joined / computed value: whether it shrinks is value-level (INV1 judges its shape)
+            if cur is not None:
+                Z = G.closure(b, extra_terms=[e, cur])
+                if Z.le(cur, e, 0):
+                    continue  # grows or keeps
+            n += 1
+            after = {b} | f.reachable_from(b, unwind=False)
+            dr = {x for x in after if f.term(x)["k"] == "call" and mir.callee_short(f.term(x)) in DESTROY_PRIMITIVES and (x != b or True)}
+            returns_drain = any(isinstance(mir.strip_casts(f.deep_simplify(f.return_expr(rb))), tuple) and
+                                str(mir.strip_casts(f.deep_simplify(f.return_expr(rb)))[1:2]).find("Drain") >= 0 for rb in f.return_blocks())
+            ok = returns_drain
+            why = "the function returns the Drain that takes custody"
+            if not ok:
+                from .. import effects
+
+                user = {ub for ub, _, _ in effects.user_sites(f)}
+                rets = set(f.return_blocks())
+                ok, why = bool(dr), "no call of drop_range after the store"
+                seen, st = set(), list(f.succs(b, False)) if b not in dr else []
+                while st and ok:
+                    x = st.pop()
+                    if x in seen or x in dr:
+                        continue
+                    seen.add(x)
+                    if x in rets:
+                        ok, why = False, "a return is reached without drop_range"
+                    elif x in user:
+                        ok, why = False, "user code can run between the shrink and drop_range"
+                    st.extend(f.succs(x, False))
+                if ok:
+                    why = "drop_range follows on every path, before any user code"
+            ctx.check(ok, rule, f.short, "shrinking store `size = %s`" % mir.fmt(e, f)[:40], short_loc(f, b, i),
+                      "`%s` makes `size` smaller (`size = %s`) without handing the elements beyond it to drop_range (on every path, before any "
+                      "user code) or to a Drain: if anything panics they are owned by nobody and are never destroyed, or they are destroyed "
+                      "later by code that does not know they left the buffer" % (f.short, mir.fmt(e, f)[:40]), why, cfg)
+    return n
 
 
 # ------------------------------------------------------------------------------------------------
